@@ -64,6 +64,7 @@ GROUPS = {
                 literal="({{ time := {time}, prio := ({priority} : Int).toNat, id := ({unique_id} : Int).toNat, tag := 0, "
                         "isStep := false, cancelled := {_canceled}, dead := false, act := 0 }} : Mesa.Devs.Ev)"),
             Rec("EventList", {"_events": ("L", ("R", "SimEvent"))}),
+            Rec("SimulatorRec", {"time": "Int"}),
         ],
         "fns": [
             Fn("C14", "mesa/experimental/devs/eventlist.py", "SimulationEvent.CANCELED", "CANCELED", {}, self_rec="SimEvent"),
@@ -77,6 +78,9 @@ GROUPS = {
             Fn("C14", "mesa/experimental/devs/eventlist.py", "EventList.is_empty", "is_empty", {}, self_rec="EventList"),
             Fn("C14", "mesa/experimental/devs/eventlist.py", "EventList.peak_ahead", "peak_ahead", {"n": "Int"}, self_rec="EventList",
                order="lt", props={"CANCELED": "CANCELED"}),
+            # simulator.py: `self.run_until(end_time)` is the effect (end_time)
+            Fn("C15", "mesa/experimental/devs/simulator.py", "Simulator.run_for", "run_for", {"time_delta": "Int"},
+               self_rec="SimulatorRec", effects={"self.run_until": ("T", "Int")}, effect_params={"self.run_until": ("end_time",)}),
         ],
     },
     "Steps": {
@@ -113,6 +117,12 @@ REGISTRY = {
             "C14_gen_CANCELED_eq_model", "C14_gen_lt_eq_model", "C14_gen_add_event_eq_model", "C14_gen_pop_event_eq_model",
             "C14_gen_len_eq_model", "C14_gen_is_empty_eq_model", "C14_add_event_generated", "C14_pop_event_generated",
             "C14_gen_peak_ahead_eq_model")],
+    },
+    "C15": {
+        "groups": ["Devs"],
+        "functions": ["Simulator.run_for"],
+        "lean_modules": ["MesaModel.Proofs.XlateDevs"],
+        "theorems": ["Mesa.Devs.C15_gen_run_for_eq_model"],
     },
     "C09": {
         "groups": ["Legacy"],
